@@ -47,6 +47,7 @@ type vfMsg struct {
 	End    int64  // exclusive; 0 while open
 	Seq    int64  // seq of the write that started it
 	Head   []byte // the header line (without newline), truncated to 200 bytes
+	Full   []byte // the whole line for everything but DATA (up to 1 MiB)
 	BinLen int64
 }
 
@@ -176,7 +177,11 @@ func (w *vfWire) parseLocked(p []byte, seq int64) []vfGatePos {
 			evs = append(evs, vfGatePos{i, vfGateEvent{Index: w.msgCount - 1, Type: "", Before: true, Seq: seq, Off: base + int64(i)}})
 		}
 		if b != '\n' {
-			if len(w.curLine) < 4096 {
+			limit := 1 << 20
+			if len(w.curLine) >= 6 && string(w.curLine[:6]) == "#DATA:" {
+				limit = 64 // payload lines are not kept
+			}
+			if len(w.curLine) < limit {
 				w.curLine = append(w.curLine, b)
 			}
 			continue
@@ -194,6 +199,9 @@ func (w *vfWire) parseLocked(p []byte, seq int64) []vfGatePos {
 			}
 		}
 		m.Type = typ
+		if typ != "DATA" {
+			m.Full = append([]byte(nil), line...)
+		}
 		if len(line) > 200 {
 			m.Head = append([]byte(nil), line[:200]...)
 		} else {
